@@ -43,7 +43,8 @@ func productionStep(c *Check, p *Prog) []*ssa.Function {
 }
 
 func applyStep(c *Check, p *Prog) []*ssa.Function {
-	return stepFuncs(c, p, loopSync, 5, storeM("SaveBlockData"))
+	pick := func(n *Node) bool { return strings.HasSuffix(genericName(CallName(n)), "pkg/cache.Cache[_]).GetItem") }
+	return stepFuncsAnchored(c, p, loopSync, 5, pick, storeM("SaveBlockData"))
 }
 
 func runC04(c *Check) {
